@@ -568,6 +568,11 @@ func c07Edges(cfg Config, res *Result) {
 }
 
 func suiteC07(cfg Config, res *Result) {
+	defer routesAgree(res, "semantics", "c07-routes", []string{
+		"{{ 7 - 2 * 3 }}|{% if 1 < 2 && a %}T{% else %}F{% endif %}|{{ 2 ^ 3 ^ 2 }}|{{ 9 / 2.0 }}|{{ \"a\" + 1 }}",
+		"{{ 7 + 2 * 3 }}|{% if 1 > 2 || b %}T{% else %}F{% endif %}|{{ 2 * 3 * 2 }}|{{ 9 % 2.0 }}|{{ \"b\" + 1 }}",
+		"{{ -2 ^ 2 }}{{ not a or b }}{{ 1 in [1, 2] }}{{ \"x\" in \"xyz\" }}", "{{ 1 / 1 }}", "{{ 1 / 0 }}", "{{ 10 % 0 }}", "{{ (1 + 2) * 3 - 4 / 2 }}"},
+		pongo2.Context{"a": true, "b": false})
 	defer c07Edges(cfg, res)
 	defer c07Membership(cfg, res)
 	defer c07NamedNumbers(cfg, res)
